@@ -93,9 +93,13 @@ ALLOCFREE_REOPEN = H("txfile.VerifProgReopen", "allocation/free-only transaction
                      "FileStats reported on open == FileStats of the running instance == model; snapshot, allocatable pages", "opset=1 nops=3 (thorough 4)",
                      quick={"params": {"opset": 1, "nops": 3, "ntx": 1, "nops2": 1}}, thorough={"params": {"opset": 1, "nops": 4, "ntx": 1, "nops2": 1}, "max_paths": 400000, "budget": "1500s"})
 
+CHURN = H("txfile.VerifProgAbort", "allocation churn inside one aborted transaction: a block of 2-3 fresh pages, then single allocations and frees of fresh pages (recycling, end-marker shrink), "
+          "Rollback / Close / failing Commit: allocator exactly as at Begin, follow-up allocations own their pages", "opset=2 nops=4 (thorough 5)",
+          quick={"params": {"opset": 2, "nops": 4, "pre": 0}}, thorough={"params": {"opset": 2, "nops": 5, "pre": 1}, "max_paths": 400000, "budget": "1500s"})
+
 # ------------------------------------------------------------------ C07
 prop("C07", bounds=PROG_BOUNDS, outside=PROG_OUT,
-     harnesses=variants("txfile.VerifProgAbort", "aborted transaction (Rollback/Close) vs. snapshot at Begin: allocator partition, markers, meta area, overwrite log, header, stats, file size, follow-up allocations",
+     harnesses=[CHURN] + variants("txfile.VerifProgAbort", "aborted transaction (Rollback/Close) vs. snapshot at Begin: allocator partition, markers, meta area, overwrite log, header, stats, file size, follow-up allocations",
                         {"nops": 2, "pre": 1}, {"nops": 3, "pre": 2}, quick_vs=(0, 2)) + [OVERFLOW])
 
 # ------------------------------------------------------------------ C04
@@ -117,7 +121,7 @@ REG_LEMMAS_THOROUGH = [
 ]
 
 prop("C04", bounds=PROG_BOUNDS, outside=PROG_OUT,
-     harnesses=REG_LEMMAS_QUICK + REG_LEMMAS_THOROUGH + [FREECYCLE, OVERFLOW, ALLOCFREE_REOPEN,
+     harnesses=REG_LEMMAS_QUICK + REG_LEMMAS_THOROUGH + [FREECYCLE, OVERFLOW, ALLOCFREE_REOPEN, CHURN,
                H("txfile.VerifRegionRoundTrip", "free-list entries survive serialization (a wrongly decoded region would make live pages allocatable after reopen)", "id<2^55, count in [1,2^32)"),
                H("txfile.VerifProgAbort", "after Rollback / Close / a Commit that fails with an injected I/O error, follow-up allocations own their pages", "nops=2, pre=1",
                  quick={"params": {"nops": 2, "pre": 1}}, thorough={"params": {"nops": 2, "pre": 2}, "max_paths": 300000, "budget": "1200s"})] + variants("txfile.VerifProgOwn", "every id returned by Alloc/AllocN is >= 2, not live, not freed-but-committed, not internal; ownership partition after every commit",
